@@ -1,9 +1,10 @@
 (* C03 driver.
    default mode: one `lr` dump per line (optionally extended with ` # DL kind tidx…`
    declaration lines in order and ` # DP pidx tidx|-` %prec annotations) ->
-     W wf= pc=  # SC st tok (S t|R p|A)  # SAR st tok  # SS st tok pidx  # SRC st tok pidx…
+     W wf= pc=  # SC st tok (S t|R p|A)  # SD st tok (S|R|E) reported  # SAR st tok  # SS st tok pidx  # SRC st tok pidx…
      # M ok|builderr|panic|nofinal  # MS st tok pidx  # MR st tok x y
      # ETP tok level kind  # EPP pidx (level kind|-)  # EDUP tok  # EPANIC pidx
+   mode `canon-ar`: grammar dump -> `AR <0|1> n=<canonical states>`
    mode `expect`: lines `<expect|-> <expectrr|-> <sr> <rr>` -> `spec=<0|1> mirror=<0|1>` *)
 let assoc_of_int = function 0 -> ALeft | 1 -> ARight | _ -> ANonassoc
 let int_of_assoc = function ALeft -> 0 | ARight -> 1 | ANonassoc -> 2
@@ -45,6 +46,12 @@ let dump_main () =
         (match cell_spec g tp pp items es na with
          | Err -> ()
          | c -> Buffer.add_string b (Printf.sprintf " # SC %d %d %s" s a (pp_act c)));
+        (match assoc_sym (T na) es, winner g items na with
+         | Some tgt, Some p when not (acc_cand g items na) ->
+             let (c, rep) = decide tp pp na p tgt in
+             Buffer.add_string b (Printf.sprintf " # SD %d %d %s %s" s a
+               (match c with Shift _ -> "S" | Reduce _ -> "R" | Err -> "E" | Accept -> "A") (b2s rep))
+         | _ -> ());
         if accept_reduce_b g items na then Buffer.add_string b (Printf.sprintf " # SAR %d %d" s a);
         (match red_cands g items na with
          | _ :: _ :: _ as l ->
@@ -94,4 +101,22 @@ let dump_main () =
     end;
     Buffer.contents b)
 
-let () = if Array.length Sys.argv > 1 && Sys.argv.(1) = "expect" then expect_main () else dump_main ()
+(* oracle for construction errors: does the canonical LR(1) automaton have a cell offering
+   accept and a reduction?  (the state reached on the start symbol is never merged by Pager's
+   algorithm — its core is unique — so its lookaheads are the canonical ones) *)
+let canon_ar_main () =
+  iter_lines (fun line ->
+    if String.length line < 2 || String.sub line 0 2 <> "G " then "SKIP" else
+    let d = parse_dump line in
+    let g = grammar_of d in
+    match canon_lr1 g (nat_of_int 1500) with
+    | None -> "AR none"
+    | Some c ->
+        let toks = List.init d.ntoks (fun a -> n_of_int a) in
+        let ar = List.exists (fun (_, items) -> List.exists (fun a -> accept_reduce_b g items a) toks) c.c_dump.d_closed in
+        Printf.sprintf "AR %s n=%d" (b2s ar) (int_of_n c.c_dump.d_nstates))
+
+let () =
+  if Array.length Sys.argv > 1 && Sys.argv.(1) = "expect" then expect_main ()
+  else if Array.length Sys.argv > 1 && Sys.argv.(1) = "canon-ar" then canon_ar_main ()
+  else dump_main ()
